@@ -35,7 +35,7 @@ class SIGHASH:
 
 def read_exact(stream, n):
     """Reads exactly n bytes from the stream, raises if the stream is too short"""
-    b = stream.read(n)
+    b = compact.read_bytes(stream, n)
     if len(b) != n:
         raise TransactionError("Can't read %d bytes from the stream" % n)
     return b
